@@ -102,9 +102,10 @@ Section A.
     observer c = true -> Inv s -> dynx t (exec nosig cf c s) = dynx t s.
   Proof.
     unfold Inv. intros Ho Hi. destruct c; try discriminate Ho; try (destruct s; cbn in *; try rewrite orb_false_r; reflexivity).
-    - cbn. rewrite <- Hi. destruct s; reflexivity.
+    - unfold exec. cbn [exec1]. rewrite <- Hi. destruct s; reflexivity.
     - destruct ax; destruct s; reflexivity.
     - destruct a; destruct s; reflexivity.
+    - destruct s; unfold dynx, dyn, nosig; cbn. rewrite orb_false_r. reflexivity.
   Qed.
 
   Lemma Inv_dyn (s1 s2 : st) : dyn s1 = dyn s2 -> Inv s1 -> Inv s2.
@@ -139,7 +140,7 @@ Section A.
     unfold Inv. destruct c; cbn; auto; try (destruct s; cbn; auto; fail).
     - destruct ax; destruct s; cbn; auto.
     - destruct a; destruct s; cbn; auto.
-    - destruct m; destruct s; cbn; auto. destruct (dynrf cf); cbn; auto.
+    - destruct m; destruct s; unfold exec; cbn; auto. destruct (dynrf cf); cbn; auto.
   Qed.
 
   (** every call's effect on the dynamic part depends on the dynamic part only *)
@@ -148,9 +149,9 @@ Section A.
   Proof.
     intros (Hl & Hr & Hh & Hw & Hd) H. unfold dynx, dyn in *. destruct s1, s2. cbn in H.
     destruct t; inversion H; subst; clear H;
-      (destruct c as [| | |ax| | | | |a|m|m| | |m| |l]; cbn; try reflexivity;
+      (destruct c as [| | |ax| | | | |a|m|m| | |m| |l| |o]; cbn; try reflexivity;
        try (destruct ax; reflexivity); try (destruct a; reflexivity);
-       try (destruct m; cbn; rewrite ?Hw, ?Hd; try destruct (dynrf c2); reflexivity)).
+       try (destruct m; unfold exec; cbn; rewrite ?Hw, ?Hd; try destruct (dynrf c2); reflexivity)).
   Qed.
 
   Lemma gval_eq g c1 c2 (s1 s2 : st) :
@@ -359,9 +360,9 @@ Section B.
     clr s1 = clr s2 -> clr (exec sig1 cf c s1) = clr (exec sig2 cf c s2).
   Proof.
     unfold clr. destruct s1, s2. cbn. intro H. inversion H; subst; clear H.
-    destruct c as [| | |ax| | | | |a|m|m| | |m| |l]; cbn; try reflexivity;
+    destruct c as [| | |ax| | | | |a|m|m| | |m| |l| |o]; cbn; try reflexivity;
       try (destruct ax; reflexivity); try (destruct a; reflexivity);
-      try (destruct m; cbn; try destruct (dynrf cf); reflexivity).
+      try (destruct m; unfold exec; cbn; try destruct (dynrf cf); reflexivity).
   Qed.
 
   Lemma gval_clr cf g (s1 s2 : st) : clr s1 = clr s2 -> is_abort g = false -> gval cf s1 g = gval cf s2 g.
@@ -436,11 +437,11 @@ Section B.
 
   Lemma flagrel_exec sig cf c (s : st) : flagrel sig s (exec sig cf c s).
   Proof.
-    destruct c as [| | |ax| | | | |a|m|m| | |m| |l];
+    destruct c as [| | |ax| | | | |a|m|m| | |m| |l| |o];
       try (destruct s; apply flagrel_same; reflexivity);
       try (destruct ax; destruct s; apply flagrel_same; reflexivity);
       try (destruct a; destruct s; apply flagrel_same; reflexivity);
-      try (destruct m; destruct s; cbn; try destruct (dynrf cf); apply flagrel_same; reflexivity).
+      try (destruct m; destruct s; unfold exec; cbn; try destruct (dynrf cf); apply flagrel_same; reflexivity).
     unfold flagrel, sig_between. cbn. split; [lia|]. rewrite orb_true_iff. split.
     - intros [H|H]; auto. right. exists (pc s). split; auto; lia.
     - intros [H|(i & Hi & Hs)]; auto. right. assert (i = pc s) by lia. subst; auto.
@@ -463,9 +464,9 @@ Section B.
   (** ** the step counter *)
   Lemma k_exec sig cf c (s : st) : k (exec sig cf c s) = match c with IncStep => k s + 1 | _ => k s end.
   Proof.
-    destruct c as [| | |ax| | | | |a|m|m| | |m| |l]; try (destruct s; reflexivity);
+    destruct c as [| | |ax| | | | |a|m|m| | |m| |l| |o]; try (destruct s; reflexivity);
       try (destruct ax; destruct s; reflexivity); try (destruct a; destruct s; reflexivity);
-      try (destruct m; destruct s; cbn; try destruct (dynrf cf); reflexivity).
+      try (destruct m; destruct s; unfold exec; cbn; try destruct (dynrf cf); reflexivity).
   Qed.
 
   Lemma k_no_inc sig cf b : no_inc b = true -> forall (s : st), k (exec_blk sig cf b s) = k s.
@@ -524,10 +525,10 @@ Section B.
   Lemma file_exec sig cf c (s : st) :
     file (exec sig cf c s) = file s ++ match c with Append x => recs cf x s | _ => [] end.
   Proof.
-    destruct c as [| | |ax| | | | |a|m|m| | |m| |l]; try (destruct s; cbn; rewrite app_nil_r; reflexivity);
+    destruct c as [| | |ax| | | | |a|m|m| | |m| |l| |o]; try (destruct s; cbn; rewrite app_nil_r; reflexivity);
       try (destruct ax; destruct s; cbn; rewrite app_nil_r; reflexivity);
       try (destruct a; destruct s; reflexivity);
-      try (destruct m; destruct s; cbn; try destruct (dynrf cf); cbn; rewrite app_nil_r; reflexivity).
+      try (destruct m; destruct s; unfold exec; cbn; try destruct (dynrf cf); cbn; rewrite app_nil_r; reflexivity).
   Qed.
 
   Lemma file_emit sig cf b : forall (s : st), file (exec_blk sig cf b s) = file s ++ emit sig cf b s.
@@ -818,10 +819,10 @@ Section C.
     intros Hs (Hd & H0 & Hy & H1 & Hc). split; [apply dyn_closed; auto|].
     unfold dynx, dyn in Hd. destruct s1, s2. cbn in *.
     destruct t; inversion Hd; subst; clear Hd;
-      (destruct c as [| | |ax| | | | |a|m|m| | |m| |l]; cbn; auto;
+      (destruct c as [| | |ax| | | | |a|m|m| | |m| |l| |o]; cbn; auto;
        try (destruct ax; cbn; repeat split; intros; auto; try (rewrite Hy by auto); auto; fail);
        try (destruct a; cbn; auto; fail);
-       try (destruct m; cbn; try destruct (dynrf c1); try destruct (dynrf c2); cbn; auto; fail);
+       try (destruct m; unfold exec; cbn; try destruct (dynrf c1); try destruct (dynrf c2); cbn; auto; fail);
        try (repeat split; intros; auto; fail)).
   Qed.
 
